@@ -245,7 +245,7 @@ func randomCount(prop, tier string) int {
 func (e *prodEngine) Count(prop, tier string, seed int64) int {
 	n := len(coreCases(prop, tier)) + len(directedCases(prop, tier)) + randomCount(prop, tier)
 	if prop == "C18" {
-		n += consInterceptorCases(tier)
+		n += consInterceptorCases(tier) + reuseInterceptCases(tier)
 	}
 	n += reuseCases(prop, tier)
 	return n
@@ -502,6 +502,9 @@ func (e *prodEngine) Run(prop, tier string, seed int64, idx int) proto.Rec {
 		id = fmt.Sprintf("%s/%s/directed/%d", prop, tier, idx-len(core))
 	} else {
 		k := idx - len(core) - len(directedCases(prop, tier))
+		if prop == "C18" && k >= randomCount(prop, tier)+consInterceptorCases(tier) {
+			return runReuseInterceptCase(prop, tier, seed, k-randomCount(prop, tier)-consInterceptorCases(tier), idx)
+		}
 		if prop == "C18" && k >= randomCount(prop, tier) {
 			return runConsInterceptorCase(prop, tier, seed, k-randomCount(prop, tier), idx)
 		}
